@@ -160,6 +160,9 @@ DRIVERS = {
                     describe="Unicode scalar values (boundaries + seeded sample; thorough: every scalar value) in a nuget name (escaped), a pypi name (raw) and a generic name"),
     "builder-ops": dict(trace="Trace_Stateless", quick=2500, thorough=80000,
                         describe="random builder call sequences with arbitrary Unicode arguments, build(), and the parse of the printed form"),
+    "repo-tests": dict(trace="Trace_Stateless", kind="repo-tests", quick=1, thorough=1,
+                       describe="the repository's own 129 unit tests, 52 conformance tests and 12 doc tests executed with the guarded hooks on "
+                                "(--cfg purl_verif): every from_str, build() and Display call they make is recorded and validated"),
     "lengths": dict(trace="Trace_Stateless", quick=1, thorough=2, chunk=1200,
                     describe="length sweep: every component (type, namespace, name, version, key, value, subpath, checksum algorithm and hex) at every "
                              "length 0..48 and around 64 / 128 (thorough: also 256 / 1024) with a plain, upper-case, escape-needing, non-ASCII or escaped last character; "
@@ -181,15 +184,15 @@ DRIVERS = {
 PARSE_ALL = ["PARSE-SEP", "PARSE-PATH", "PARSE-QUAL", "PARSE-TYPED", "PARSE-NS", "PARSE-SUB", "PARSE-QUALS2", "PARSE-UPKEYS", "PARSE-UPTYPE", "SPELL", "FAULT"]
 BUILD_ALL = ["BUILDER-G", "BUILDER-T", "BUILDER-SIM-G", "BUILDER-SIM-T", "BUILDER-SEQ"]
 PROPS = {
-    "C01": dict(suites=PARSE_ALL + ["FORMAT-1", "TYPES-NAMES", "SYSTEM-G", "SYSTEM-T"], drivers=["garbage", "corpus", "lengths"]),
-    "C02": dict(suites=PARSE_ALL, drivers=["corpus", "lengths"]),
+    "C01": dict(suites=PARSE_ALL + ["FORMAT-1", "TYPES-NAMES", "SYSTEM-G", "SYSTEM-T"], drivers=["garbage", "corpus", "lengths", "repo-tests"]),
+    "C02": dict(suites=PARSE_ALL, drivers=["corpus", "lengths", "repo-tests"]),
     "C03": dict(suites=["FORMAT-1", "FORMAT-2", "PARSE-QUAL", "PARSE-QUALS2", "BUILDER-G", "BUILDER-SEQ"], drivers=["scalars", "builder-ops"]),
-    "C04": dict(suites=PARSE_ALL + BUILD_ALL + ["SHAPES", "SYSTEM-G", "SYSTEM-T", "QUAL"], drivers=["garbage", "builder-ops"]),
+    "C04": dict(suites=PARSE_ALL + BUILD_ALL + ["SHAPES", "SYSTEM-G", "SYSTEM-T", "QUAL"], drivers=["garbage", "builder-ops", "repo-tests"]),
     "C05": dict(suites=PARSE_ALL + ["CHECKSUM"], drivers=["corpus", "garbage", "lengths"]),
     "C06": dict(suites=PARSE_ALL + ["QUAL", "QUAL-SIM", "CHECKSUM", "BUILDER-G", "BUILDER-T", "BUILDER-SIM-G", "FORMAT-1", "TYPES-LOOKUP", "TYPES-COMB", "TYPES-NAMES", "TYPES-STR", "SHAPES", "SYSTEM-T"], drivers=["garbage", "corpus", "scalars", "lengths", "qual-ops", "checksum-ops", "builder-ops", "type-strings", "combined", "big"]),
     "C07": dict(suites=["PARSE-NS", "PARSE-SUB", "PARSE-PATH", "PARSE-SEP", "SPELL", "FAULT"], drivers=["garbage", "corpus", "lengths"]),
     "C08": dict(suites=["TYPES-NAMES", "TYPES-LOOKUP", "PARSE-TYPED", "BUILDER-T", "TYPES-COMB"], drivers=["scalars", "corpus"]),
-    "C09": dict(suites=BUILD_ALL + ["FORMAT-1", "FORMAT-2", "SYSTEM-G", "SYSTEM-T", "TYPES-NAMES", "TYPES-STR"], drivers=["builder-ops", "lengths"]),
+    "C09": dict(suites=BUILD_ALL + ["FORMAT-1", "FORMAT-2", "SYSTEM-G", "SYSTEM-T", "TYPES-NAMES", "TYPES-STR"], drivers=["builder-ops", "lengths", "repo-tests"]),
     "C10": dict(suites=PARSE_ALL + ["BUILDER-G", "BUILDER-T", "FORMAT-1", "TYPES-NAMES", "TYPES-STR", "CHECKSUM", "SYSTEM-G", "SYSTEM-T"], drivers=["scalars", "corpus", "lengths"]),
     "C11": dict(suites=["QUAL", "QUAL-SIM"], drivers=["qual-ops"]),
     "C12": dict(suites=["CHECKSUM", "BUILDER-G", "QUAL", "PARSE-QUAL", "SPELL"], drivers=["checksum-ops", "corpus"]),
